@@ -327,7 +327,12 @@ class ElementList(MutableSequence):
         elif isinstance(value, Element):  # it is already an instance of Element
             child = value
         elif isinstance(value, BaseDataType):
-            child = self.create_element(name, False, reference)
+            if reference is None:
+                raise ChildNotFound(name)
+            # the child is created detached and valued before being attached below: it must not be added twice,
+            # nor stay attached when the value is refused
+            child = reference['cls'](reference['name'], reference=reference['ref'], version=self.element.version,
+                                     validation_level=self.element.validation_level)
             child.value = value
         else:
             raise ChildNotValid(value, child_name)
